@@ -398,6 +398,9 @@ impl Ctx<'_> {
         };
         let ftext = format!("(s: {pt}, i: int) -> {rt} {{ return s[i] }}");
         self.runtime(seq, "index", &format!("idx {pt}"), &ftext, vec![seq.value(), Variable::Int(i)], &expr, &expected);
+        // the sequence seen through a union of a string and an array type
+        let ftext = "(s: [any]|string, i: int) -> any { return s[i] }";
+        self.runtime(seq, "index:union-view", "idx union", ftext, vec![seq.value(), Variable::Int(i)], &expr, &expected);
     }
 
     fn check_slice(&mut self, seq: &Seq, a: Option<i64>, b: Option<i64>, c: Option<i64>, two_colons: bool) {
@@ -447,7 +450,11 @@ impl Ctx<'_> {
             fkey.push_str(" any");
             self.rep.count("runtime_slice_helper_fell_back_to_any");
         }
-        self.runtime(seq, &format!("slice:{shape}"), &fkey, &ftext, args, &expr, &expected);
+        self.runtime(seq, &format!("slice:{shape}"), &fkey, &ftext, args.clone(), &expr, &expected);
+        let utext = ftext.replacen(&format!("s: {pt}"), "s: [any]|string", 1).replacen(&format!("-> {rt} {{"), "-> [any]|string {", 1);
+        if utext.contains("-> [any]|string {") {
+            self.runtime(seq, &format!("slice:{shape}:union-view"), &format!("{fkey} union"), &utext, args, &expr, &expected);
+        }
     }
 
     fn check_len(&mut self, seq: &Seq) {
@@ -461,6 +468,55 @@ impl Ctx<'_> {
         };
         let ftext = format!("(s: {pt}) -> int {{ return std.len(s) }}");
         self.runtime(seq, "len", &format!("len {pt}"), &ftext, vec![seq.value()], &expr, &expected);
+    }
+}
+
+impl Ctx<'_> {
+    /// what the checker must accept / refuse follows from the documented result kinds: an element of the array or a
+    /// one-character string for `s[i]`, a sequence of the same kind for a slice, an int for `std.len`
+    fn static_typing_templates(&mut self) {
+        let cases: [(&str, bool); 22] = [
+            ("(s: [int]|string, i: int) -> int|string { return s[i] }", true),
+            ("(s: [int]|string, i: int) -> string { return s[i] }", false),
+            ("(s: [int]|string, i: int) -> int { return s[i] }", false),
+            ("(s: [int]|[string], i: int) -> int|string { return s[i] }", true),
+            ("(s: [int]|[string], i: int) -> int { return s[i] }", false),
+            ("(s: [int|string], i: int) -> int|string { return s[i] }", true),
+            ("(s: [int|string], i: int) -> int { return s[i] }", false),
+            ("(s: string, i: int) -> string { return s[i] }", true),
+            ("(s: string, i: int) -> int { return s[i] }", false),
+            ("(s: [int], i: int) -> int { return s[i] }", true),
+            ("(s: [int], i: int) -> string { return s[i] }", false),
+            ("(s: [int]|string) -> [int]|string { return s[1:] }", true),
+            ("(s: [int]|string) -> string { return s[1:] }", false),
+            ("(s: [int]|string) -> [int] { return s[1:] }", false),
+            ("(s: [int]|string) -> int|string { return s[1:] }", false),
+            ("(s: string) -> string { return s[::2] }", true),
+            ("(s: [int]) -> [int] { return s[::2] }", true),
+            ("(s: [int]) -> int { return s[::2] }", false),
+            ("(s: [int]|string) -> int { return std.len(s) }", true),
+            ("(s: [int]|string) -> string { return std.len(s) }", false),
+            ("(s: [int]|string, i: int) -> int { return match s[i] { x: string => 1, } }", false),
+            ("(s: [int]|string, i: int) -> int { return match s[i] { x: string => 1, y: int => 2, } }", true),
+        ];
+        for (text, want) in cases {
+            self.rep.evaluations += 1;
+            self.rep.count("static-typing-templates");
+            let got = match real::guarded(|| Code::parse(&self.std_interp, text)) {
+                Ok(Ok(_)) => "accepted".to_string(),
+                Ok(Err(e)) => format!("rejected:{}", real::error_variant(&e)),
+                Err(p) => format!("panic:{}", p.site()),
+            };
+            let ok = if want { got == "accepted" } else { got.starts_with("rejected:") && got != "rejected:Parsing" };
+            if !ok {
+                self.rep.violation(
+                    &format!("c09:static-typing:{}", crate::util::truncate(text, 70)),
+                    &format!("`{text}` is {got}; the documented result kind requires it to be {}", if want { "accepted" } else { "rejected by the checker" }),
+                    "c09",
+                    text,
+                );
+            }
+        }
     }
 }
 
@@ -478,6 +534,9 @@ pub fn run(cfg: &Cfg, rep: &mut Report) {
         funcs: HashMap::new(),
         std_interp: Interpreter::with_stdlib(),
     };
+    if cfg.shard == 0 {
+        ctx.static_typing_templates();
+    }
     let seqs = sequences(true);
     let max_exhaustive = 5;
     let mut cell = 0u64;
